@@ -1,6 +1,7 @@
 import BadgerModel.Mvcc
 import BadgerModel.Drop
 import BadgerModel.Picker
+import BadgerModel.IterPick
 import BadgerModel.Driver.Util
 /-! `mvcc` engine: the whole-database model driven by one op per line (see harness/eng_mvcc.go). -/
 namespace Badger.Driver
@@ -105,7 +106,9 @@ def mvccStep (d : Db) (line : String) : Db × String :=
       let o := if o.prefixIsKey then { o with allVersions := true } else o
       let seekS := argStr kv "seek"
       let seek : Option Bytes := if seekS == "rewind" then none else fromHex seekS
-      match d.iterate id o seek, d.findTxn id with
+      -- the iterator over the tables the code picks (pickTable / pickTables); the bloom answer is
+      -- not exposed: `false` (no table excluded by the filter) is sound for forward key iterators
+      match d.iteratePicked id o seek (fun _ => false), d.findTxn id with
       | some items, some t =>
         -- `Seek(key)` and every `Item()` call record a read (conflict detection)
         let newReads := (match seek with | some k => if k.isEmpty then [] else [k] | none => []) ++ items.map (·.key)
